@@ -19,7 +19,7 @@ RULE = ('Differential: classification.py (categorize_amount, is_excluded_from_sp
         'Non-trivial = a special tag in non-lower case, or two special tags, or a non-positive amount; distinct by case hash.')
 ASSUMPTIONS = ['node vm with stubbed Vue/document stands in for the browser JS engine (same ECMAScript number semantics)',
                'non-finite amounts are outside the domain (JSON cannot carry them into the report either)']
-REQUIRED_CLASSES = ['two_special', 'nonlower_special', 'nonpositive', 'tags_null']
+REQUIRED_CLASSES = ['two_special', 'nonlower_special', 'nonpositive', 'tags_null', 'host_object_property_tag']
 
 SPECIAL = ['income', 'investment', 'transfer']
 KEYMAP = {'income': 'income', 'investment': 'investment', 'transfer_in': 'transferIn', 'transfer_out': 'transferOut',
@@ -133,6 +133,8 @@ def classify(case):
         cl.add('tags_null')
     if case.get('tags_missing'):
         cl.add('tags_missing')
+    if any(isinstance(t, str) and t.lower() in ('constructor', '__proto__', 'tostring', 'hasownproperty', 'valueof') for t in tags):
+        cl.add('host_object_property_tag')
     return cl
 
 
@@ -157,7 +159,9 @@ def exhaustive_cases():
                     if shape == 0:
                         tagsets = [sp]
                     elif shape == 1:
-                        tagsets = [['groceries'] + sp, sp + ['Übung', 'INCOMES']]
+                        # ordinary tags, including names that are properties of every JavaScript / Python object (a lookup table keyed by tag must not see them)
+                        tagsets = [['groceries'] + sp, sp + ['Übung', 'INCOMES'], sp + ['constructor'], ['__proto__'] + sp, sp + ['toString', 'hasOwnProperty', 'valueOf'],
+                                   sp + ['__class__', 'items', 'prototype', 'length']]
                     elif shape == 2:
                         tagsets = [sp + sp] if sp else [None]
                     else:
@@ -174,7 +178,8 @@ tag_st = st.one_of(
     st.tuples(st.sampled_from(SPECIAL), st.lists(st.booleans(), min_size=10, max_size=10)).map(
         lambda p: ''.join(c.upper() if b else c for c, b in zip(p[0], p[1]))),
     st.sampled_from(['food', 'Recurring', 'incomes', ' income', 'income ', 'INCOMĖ', 'İncome', 'transﬁer',
-                     'investment!', '', 'Tränsfer', 'TRANSFER​']),
+                     'investment!', '', 'Tränsfer', 'TRANSFER​', 'constructor', '__proto__', 'Constructor', 'toString', 'hasOwnProperty', '__defineGetter__', 'isPrototypeOf',
+                     'valueOf', 'prototype', '__class__', 'keys']),
     st.text(max_size=6),
 )
 amount_st = st.one_of(
